@@ -205,6 +205,15 @@ def oracle(ctx, spec, out, ops):
         return ("operand-construction-fails", f"could not build the operands of {spec}: {out['setup_failed']}")
     if "bad" in out:
         return ("malformed-result", f"{spec}: result {out['bad']}")
+    if k in ("bin", "un") and ("operand_changed" in out or "second_differs" in out):
+        names = "".join(kind_name(o) + (OPW[spec["op"]] if i == 0 and k == "bin" else "") for i, o in enumerate(ops))
+        if "operand_changed" in out:
+            return (f"operation-changes-its-operand:{spec['op'] if k == 'un' else ''}{names}",
+                    f"{spec['op']} on {ops} left an operand (or a copy of it made earlier by scaling with a number) "
+                    f"different from what it was: {out['operand_changed']}")
+        return (f"repeated-operation-differs:{spec['op'] if k == 'un' else ''}{names}",
+                f"{spec['op']} on the same objects {ops} gave {out.get('val') or {a: b for a, b in out.items() if a != 'second_differs'}} "
+                f"the first time and {out['second_differs']} the second time")
     if k == "bin":
         x, y = ops
         op = spec["op"]
